@@ -83,10 +83,20 @@ func runCFG(fn *ir.Function) string {
 		return pass.CFG(fn)
 	})
 	if err != nil {
-		return "err " + classifyCFGErr(err)
+		// the property demands *an* error, not a particular message or precedence: the class is kept for
+		// the statistics only (a panic stays a distinct outcome)
+		cls := classifyCFGErr(err)
+		lastCFGErrClass = cls
+		if cls == "panic" {
+			return "err panic"
+		}
+		return "err"
 	}
+	lastCFGErrClass = ""
 	return encGraph(fn)
 }
+
+var lastCFGErrClass string
 
 func init() {
 	register("c09", "LabelTarget/CFG on generated node sequences", func(args []string) error {
@@ -141,12 +151,11 @@ func init() {
 			fn := g.generate()
 			req := encNodes(fn)
 			resp := runCFG(fn)
-			stats[strings.SplitN(resp, " ", 3)[0]+":"+func() string {
-				if strings.HasPrefix(resp, "err") {
-					return resp[4:]
-				}
-				return "graph"
-			}()]++
+			if strings.HasPrefix(resp, "err") {
+				stats["err:"+lastCFGErrClass]++
+			} else {
+				stats["ok:graph"]++
+			}
 			stats["nodes"] += len(fn.Nodes)
 			for _, n := range fn.Nodes {
 				if _, ok := n.(ir.Label); ok {
